@@ -99,4 +99,62 @@ FC(n, r, solvent, u) == [n |-> n, r |-> r, solvent |-> solvent, u |-> u]
 PL_Fill == <<FC("p", "plate", "W", "L"), FC("p", "row1", "W", "L"), FC("p", "col2", "D", "g"), FC("p", "B2", "W", "mol"),
              FC("p", "list2", "W", "L"), FC("p", "row2", "N", "g"), FC("q", "all", "W", "L"), FC("t", "-", "W", "L")>>
 PL_FillDeltas == {One, R(-1, 2)}
+
+(***************************************************************************)
+(* SOL: create_solution and create_solution_from by inverse construction   *)
+(***************************************************************************)
+Subst5 == {"W", "D", "N", "M", "E"}
+C5(w, d, n, m, e) == [W |-> w, D |-> d, N |-> n, M |-> m, E |-> e]
+SOL_Names == {"v", "z", "k1", "k2", "k3", "o"}
+SOL_Shape == [n \in SOL_Names |-> <<0, 0>>]
+SOL_Init == {[v  |-> Cont(Inf, C5(I(16), I(1), Zero, Zero, Zero)),    \* solvent container with a bystander (D)
+              z  |-> Cont(Inf, C5(I(2), Zero, Zero, Zero, Zero)),     \* solvent container that is too small
+              k1 |-> Cont(Inf, C5(I(10), Zero, I(2), Zero, Zero)),    \* binary stock
+              k2 |-> Cont(Inf, C5(I(8), I(1), I(2), Zero, Zero)),     \* ternary stock
+              k3 |-> Cont(Inf, C5(I(8), Zero, I(2), Zero, I(1))),     \* stock with an enzyme bystander
+              o  |-> Cont(Inf, C5(Zero, Zero, Zero, Zero, Zero))]}
+NumUnits(s) == IF IsEnzyme(s) THEN {"U", "g", "L"} ELSE {"mol", "g", "L"}
+DenUnits == {"mol", "g", "L"}
+QtyUnits(s) == IF IsEnzyme(s) THEN {"U", "g", "L"} ELSE {"mol", "g", "L"}
+\* a solvent container never holds one of the solutes (what "quantity of solute" means would be ambiguous)
+SolSolvents(sols) == ({"W", "D", "v", "z"} \ {sols[i] : i \in DOMAIN sols})
+                       \ (IF \E i \in DOMAIN sols : sols[i] = "D" THEN {"v"} ELSE {})
+SC(sols, solvent, xs, xsolv, given, nu, du, qu, tu) ==
+  [n |-> "o", solutes |-> sols, solvent |-> solvent, xs |-> xs, xsolv |-> xsolv, given |-> given,
+   nu |-> nu, du |-> du, qu |-> qu, tu |-> tu]
+\* one solute: every unit combination that the stated pair of inputs involves
+Sol1(quick) ==
+  UNION {UNION {
+    LET sols == <<s>> IN
+    {SC(sols, solvent, <<x>>, xsolv, "cq", <<nu>>, <<du>>, <<qu>>, "L") :
+        x \in {One, I(2)}, xsolv \in (IF quick THEN {I(6), I(-1)} ELSE {I(6), I(10), I(-1)}), nu \in NumUnits(s), du \in DenUnits, qu \in QtyUnits(s)}
+    \cup {SC(sols, solvent, <<x>>, xsolv, "ct", <<nu>>, <<du>>, <<"g">>, tu) :
+        x \in {One, I(2)}, xsolv \in (IF quick THEN {I(6), I(-1)} ELSE {I(6), I(10), I(-1)}), nu \in NumUnits(s), du \in DenUnits, tu \in DenUnits}
+    \cup {SC(sols, solvent, <<x>>, xsolv, "qt", <<"g">>, <<"g">>, <<qu>>, tu) :
+        x \in {One, I(2)}, xsolv \in {I(6), I(-1)}, qu \in QtyUnits(s), tu \in DenUnits}
+    : solvent \in SolSolvents(<<s>>)} : s \in {"N", "D", "E"}}
+\* two solutes with per-solute values
+Sol2 ==
+  UNION {UNION {
+    {SC(sols, solvent, <<One, I(2)>>, xsolv, given, nus, <<du, du>>, qus, tu) :
+        xsolv \in {I(8), I(-1)}, given \in {"cq", "ct", "qt"},
+        nus \in {<<"mol", "mol">>, <<"g", IF IsEnzyme(sols[2]) THEN "U" ELSE "L">>},
+        du \in {"L", "g"},
+        qus \in {<<"g", IF IsEnzyme(sols[2]) THEN "U" ELSE "mol">>}, tu \in {"L", "g"}}
+    : solvent \in SolSolvents(sols) \ {"D", "z"}} : sols \in {<<"N", "D">>, <<"N", "E">>, <<"N", "M">>}}
+SOL_CasesQuick == Sol1(TRUE) \cup {c \in Sol2 : c.tu = "L"}
+SOL_Cases == Sol1(FALSE) \cup Sol2
+FR(src, solute, solvent, fx, y, nu, du, tu) ==
+  [src |-> src, n |-> "o", solute |-> solute, solvent |-> solvent, fx |-> fx, y |-> y, nu |-> nu, du |-> du, tu |-> tu]
+SOL_From(quick) ==
+  {FR(src, "N", "W", fx, y, nu, du, tu) :
+      src \in {"k1", "k2", "k3"}, fx \in (IF quick THEN {R(1, 2), R(3, 2)} ELSE {R(1, 4), R(1, 2), One, R(3, 2)}),
+      y \in (IF quick THEN {I(2), I(-1)} ELSE {I(2), I(4), Zero, I(-1)}),
+      nu \in {"mol", "g", "L"}, du \in DenUnits, tu \in DenUnits}
+  \cup {FR(src, "N", "v", R(1, 2), y, nu, du, tu) :
+      src \in {"k1", "k2"}, y \in {R(1, 4), R(3, 2)}, nu \in {"mol", "g"}, du \in {"L", "g"}, tu \in {"L", "g"}}
+  \cup {FR("k2", "D", "W", R(1, 2), I(2), nu, du, "L") : nu \in {"mol", "L"}, du \in {"L", "mol"}}
+  \cup {FR("v", "N", "W", R(1, 2), I(2), "mol", "L", "L")}     \* the source does not contain the solute
+SOL_FromQuick == SOL_From(TRUE)
+SOL_FromFull == SOL_From(FALSE)
 =============================================================================
